@@ -10,6 +10,8 @@ import (
 	"os"
 	"os/exec"
 	"path/filepath"
+	"regexp"
+	"strconv"
 	"strings"
 	"sync"
 	"time"
@@ -20,13 +22,36 @@ type solverCfg struct {
 	argv func(file string, timeoutMs int) []string
 }
 
+// Effort limits. The two z3 versions are limited by z3's deterministic
+// resource counter (rlimit), not by wall-clock time: the verdict on an
+// obligation must not depend on how busy the machine is (a wall-clock timeout
+// under load turns a proved obligation into an alarm). The wall-clock limits
+// are only a far-out safety net. cvc5 has no comparable counter in this
+// version's command line for all theories used, so it keeps a wall-clock
+// limit; it only matters for the few obligations neither z3 decides.
 var solvers = []solverCfg{
-	{"z3-new", func(f string, ms int) []string { return []string{"z3-new", fmt.Sprintf("-t:%d", ms), f} }},
-	{"z3", func(f string, ms int) []string { return []string{"z3", fmt.Sprintf("-t:%d", ms), f} }},
-	{"cvc5", func(f string, ms int) []string {
-		return []string{"cvc5", "--lang=smt2", fmt.Sprintf("--tlimit=%d", ms), f}
+	{"z3-new", func(f string, effort int) []string {
+		return []string{"z3-new", "-st", fmt.Sprintf("rlimit=%d", rlimitFor(effort)), "-T:900", f}
+	}},
+	{"z3", func(f string, effort int) []string {
+		return []string{"z3", "-st", fmt.Sprintf("rlimit=%d", rlimitFor(effort)), "-T:900", f}
+	}},
+	{"cvc5", func(f string, effort int) []string {
+		return []string{"cvc5", "--lang=smt2", fmt.Sprintf("--tlimit=%d", 3*effort), f}
 	}},
 }
+
+// rlimitFor converts the tier's nominal effort (milliseconds on an idle
+// machine) into z3 resource units; about 4e6 units per second were measured
+// on the obligations of this project.
+func rlimitFor(effortMs int) int64 {
+	if n, err := strconv.ParseInt(os.Getenv("GOVC_RLIMIT"), 10, 64); err == nil && n > 0 {
+		return n
+	}
+	return int64(effortMs) * 5000
+}
+
+var rlimitRe = regexp.MustCompile(`:rlimit-count\s+(\d+)`)
 
 func (vc *VC) queryText(o *Obligation, withModel bool) string {
 	var b strings.Builder
@@ -74,13 +99,14 @@ type solveResult struct {
 	verdict string // unsat sat unknown
 	solver  string
 	ms      int64
+	rlimit  int64 // z3 resource units spent (0 for cvc5)
 	output  string
 }
 
 func runSolver(ctx context.Context, s solverCfg, file string, timeoutMs int) solveResult {
 	start := time.Now()
 	argv := s.argv(file, timeoutMs)
-	cctx, cancel := context.WithTimeout(ctx, time.Duration(timeoutMs+2000)*time.Millisecond)
+	cctx, cancel := context.WithTimeout(ctx, 20*time.Minute)
 	defer cancel()
 	cmd := exec.CommandContext(cctx, argv[0], argv[1:]...)
 	var out bytes.Buffer
@@ -106,7 +132,14 @@ func runSolver(ctx context.Context, s solverCfg, file string, timeoutMs int) sol
 	case "sat":
 		v = "sat"
 	}
-	return solveResult{verdict: v, solver: s.name, ms: time.Since(start).Milliseconds(), output: text}
+	var rl int64
+	if m := rlimitRe.FindStringSubmatch(text); m != nil {
+		rl, _ = strconv.ParseInt(m[1], 10, 64)
+	}
+	if i := strings.Index(text, "(:"); i >= 0 && v != "sat" {
+		text = text[:i] // drop the statistics block
+	}
+	return solveResult{verdict: v, solver: s.name, ms: time.Since(start).Milliseconds(), rlimit: rl, output: text}
 }
 
 // discharge decides one obligation. Fast path: z3-new alone with a short
@@ -137,7 +170,7 @@ func (vc *VC) discharge(o *Obligation, dir string, timeoutMs int, idx int) {
 		default:
 			return false
 		}
-		o.Solver, o.Ms, o.Output = r.solver, r.ms, truncate(r.output, 4000)
+		o.Solver, o.Ms, o.Rlimit, o.Output = r.solver, r.ms, r.rlimit, truncate(r.output, 4000)
 		return true
 	}
 	if o.IsCover && timeoutMs > 3000 {
@@ -145,24 +178,34 @@ func (vc *VC) discharge(o *Obligation, dir string, timeoutMs int, idx int) {
 		// query only needs to detect provable unreachability
 		timeoutMs = 3000
 	}
-	fast := timeoutMs
-	if fast > 2000 {
-		fast = 2000
+	// stage 1: z3-new alone with a tenth of the (deterministic) effort - this
+	// decides nearly every obligation
+	stage1 := timeoutMs / 10
+	if o.IsCover {
+		stage1 = timeoutMs
 	}
-	r := runSolver(context.Background(), solvers[0], file, fast)
+	r := runSolver(context.Background(), solvers[0], file, stage1)
 	total := r.ms
 	if apply(r) {
 		return
 	}
-	// race all three
+	if o.IsCover {
+		// not refuted: the path is not shown unreachable
+		o.Status = "discharged"
+		o.Solver = "none(unknown)"
+		o.Ms = total
+		return
+	}
+	// stage 2: all three solvers with the full effort
 	ctx, cancel := context.WithCancel(context.Background())
 	defer cancel()
-	ch := make(chan solveResult, len(solvers))
-	for _, s := range solvers {
+	others := solvers
+	ch := make(chan solveResult, len(others))
+	for _, s := range others {
 		go func(s solverCfg) { ch <- runSolver(ctx, s, file, timeoutMs) }(s)
 	}
 	var outputs []string
-	for range solvers {
+	for range others {
 		rr := <-ch
 		outputs = append(outputs, rr.solver+": "+truncate(strings.TrimSpace(rr.output), 300))
 		if rr.verdict != "unknown" {
